@@ -145,22 +145,39 @@ class FADomain(Domain):
                 ("x - x", lambda w: push(w, w["x"] - w["x"])),
                 ("x.union(x)", lambda w: push(w, w["x"].union(w["x"]))),
                 ("x & derived", lambda w: push(w, w["x"] & last(w, FA_KINDS))),
+                ("x & derived (result dropped)", lambda w: w["x"] & last(w, FA_KINDS)),
+                ("derived - x (result dropped)", lambda w: last(w, FA_KINDS) - w["x"]),
                 ("x.is_equivalent_to(derived)", lambda w: w["x"].is_equivalent_to(last(w, FA_KINDS))),
                 ("derived.to_deterministic", lambda w: push(w, last(w, FA_KINDS).to_deterministic())),
                 ("derived.minimize", lambda w: push(w, last(w, FA_KINDS).minimize())),
                 ("derived.add_transition", mut_add_transition), ("derived.add_final_state", mut_final),
                 ("derived.remove_final_state", mut_unfinal), ("derived.add_start_state", mut_start)]
 
-    def observe(self, w):
+    LIGHT = True
+
+    def observe(self, w, light=False):
         x = w["x"]
         e = O.extract_fa(x)
         snap = (frozenset(e.trans), frozenset(e.starts), frozenset(e.finals), frozenset(e.states))
         words = tuple(sorted(tuple(s.value for s in ww) for ww in x.get_accepted_words(2)))
+        if light:
+            return (("structure", snap), ("derived automata answer according to their structure", self._consistent(w, x, e)),
+                    ("accepts", tuple(x.accepts(list(i)) for i in WA)), ("is_empty", x.is_empty()),
+                    ("is_deterministic", x.is_deterministic()), ("is_acyclic", x.is_acyclic()), ("words<=2", words),
+                    ("to_deterministic language", canon(O.extract_fa(x.to_deterministic()))))
         langs = tuple(canon(O.extract_fa(f())) for f in (x.to_deterministic, x.minimize, x.remove_epsilon_transitions,
                                                          x.copy, x.reverse, x.get_complement, lambda: x & x))
         rg = canon(RX.to_nfa(RX.from_lib(x.to_regex())))
         f = x.to_fst()
         rel = tuple(tuple(sorted(map(tuple, f.translate(list(i))))) for i in ((), ("a",), ("a", "b")))
+        consistent = self._consistent(w, x, e)
+        return (("structure", snap), ("derived automata answer according to their structure", consistent),
+                ("accepts", tuple(x.accepts(list(i)) for i in WA)), ("is_empty", x.is_empty()),
+                ("is_deterministic", x.is_deterministic()), ("is_acyclic", x.is_acyclic()), ("words<=2", words),
+                ("conversion languages", langs), ("to_regex language", rg), ("to_fst relation", rel))
+
+    @staticmethod
+    def _consistent(w, x, e):
         # every automaton of the world must answer according to its own public structure (a derived, possibly
         # mutated object is compared with "a freshly built equal object": the reference semantics of its extraction)
         consistent = True
@@ -173,10 +190,11 @@ class FADomain(Domain):
                 if d is w["d"][-1] and len(r.states) <= 5 and \
                         canon(O.extract_fa(d.kleene_star())) != canon(ref_star(r)):
                     consistent = False
-        return (("structure", snap), ("derived automata answer according to their structure", consistent),
-                ("accepts", tuple(x.accepts(list(i)) for i in WA)), ("is_empty", x.is_empty()),
-                ("is_deterministic", x.is_deterministic()), ("is_acyclic", x.is_acyclic()), ("words<=2", words),
-                ("conversion languages", langs), ("to_regex language", rg), ("to_fst relation", rel))
+                if d is w["d"][-1]:
+                    # the product with the seed must be the intersection of the two *current* structures
+                    if RN.distinguish_op(e, r, O.extract_fa(x & d), lambda p, q: p and q) is not None:
+                        consistent = False
+        return consistent
 
 
 # ------------------------------------------------------------------ regular expressions
@@ -228,7 +246,7 @@ class RegexDomain(Domain):
 class CFGDomain(Domain):
     BATTERY = 22
     TEXTS = ["S -> a S b | $", "S -> A | b\nA -> S | a A", "S -> A B\nA -> a\nB -> b | B B", "S -> S a\nA -> b",
-             "S -> a b a S | b b a | A\nA -> $ | a"]
+             "S -> a b a S | b b a | A\nA -> $ | a", "S -> A B\nA -> a A | $\nB -> b B | c"]
 
     def seeds(self):
         m = O.cfgmod()
@@ -243,7 +261,11 @@ class CFGDomain(Domain):
                 d1.add_final_state(1)
                 d2 = d1.copy()           # shares State objects with d1
                 d2.add_transition(0, "b", 0)
-                return {"x": m.CFG.from_text(t), "dfa1": d1, "dfa2": d2, "d": []}
+                d3 = fa.DeterministicFiniteAutomaton()        # does not know the terminal b
+                d3.add_transitions([(0, "a", 0)])
+                d3.add_start_state(0)
+                d3.add_final_state(0)
+                return {"x": m.CFG.from_text(t), "dfa1": d1, "dfa2": d2, "dfa3": d3, "d": []}
             return build
         return [(t.replace("\n", "; "), mk(t)) for t in self.TEXTS]
 
@@ -264,6 +286,7 @@ class CFGDomain(Domain):
                 ("to_pda().to_cfg()", lambda w: push(w, w["x"].to_pda().to_cfg())),
                 ("intersection(dfa1)", lambda w: push(w, w["x"].intersection(w["dfa1"]))),
                 ("intersection(dfa2)", lambda w: push(w, w["x"].intersection(w["dfa2"]))),
+                ("intersection(dfa3 over {a} only)", lambda w: push(w, w["x"].intersection(w["dfa3"]))),
                 ("x | x", lambda w: push(w, w["x"] | w["x"])),
                 ("x + x", lambda w: push(w, w["x"] + w["x"])),
                 ("substitute(a -> x)", lambda w: push(w, w["x"].substitute({m.Terminal("a"): w["x"]}))),
@@ -272,8 +295,34 @@ class CFGDomain(Domain):
                 ("derived.intersection(dfa1)", lambda w: push(w, last(w, CK).intersection(w["dfa1"]))),
                 ("derived.get_words(1)", lambda w: list(last(w, CK).get_words(1)))]
 
-    def observe(self, w):
+    @staticmethod
+    def _derived_consistent(w):
+        for d in w["d"]:
+            if type(d).__name__ != "CFG":
+                continue
+            r = O.extract_cfg(d)
+            lang = r.lang_upto(3)
+            if d.is_empty() is not r.is_empty():
+                return False
+            if any(d.contains(list(i)) is not (i in lang) for i in WA[:6]):
+                return False
+        return True
+
+    LIGHT = True
+
+    def observe(self, w, light=False):
         x = w["x"]
+        if light:
+            e = O.extract_cfg(x)
+
+            def symset(s):
+                return tuple(sorted((type(y).__name__, stable_repr(y.value)) for y in s))
+            return (("structure", (e.start, tuple(e.prods), frozenset(e.variables), frozenset(e.terminals))),
+                    ("is_empty", x.is_empty()), ("contains", tuple(x.contains(list(i)) for i in WA)),
+                    ("generate_epsilon", x.generate_epsilon()), ("nullable", symset(x.get_nullable_symbols())),
+                    ("generating", symset(x.get_generating_symbols())),
+                    ("get_words(2)", tuple(sorted(tuple(t.value for t in ww) for ww in x.get_words(2)))),
+                    ("derived grammars answer according to their productions", self._derived_consistent(w)))
 
         def lang(g, n=3, drop_eps=False):
             l = O.extract_cfg(g).lang_upto(n)
@@ -295,7 +344,8 @@ class CFGDomain(Domain):
                 ("reverse", lang(x.reverse())), ("x | x", lang(x | x)), ("intersection(dfa1)", lang(x.intersection(w["dfa1"]))),
                 ("intersection(dfa2)", lang(x.intersection(w["dfa2"]))),
                 ("dfa1 unchanged", canon(O.extract_fa(w["dfa1"]))), ("dfa2 unchanged", canon(O.extract_fa(w["dfa2"]))),
-                ("contains after conversions", tuple(x.contains(list(i)) for i in WA)))
+                ("contains after conversions", tuple(x.contains(list(i)) for i in WA)),
+                ("derived grammars answer according to their productions", self._derived_consistent(w)))
 
 
 # ------------------------------------------------------------------ pushdown automata
@@ -499,7 +549,7 @@ class C19(Prop):
                    "an operation that raises on its own is not extended (other properties cover it)"]
     HORIZON = 300.0
     CHUNK = 1
-    DEPTH = {"quick": {"fa": 3, "regex": 3, "cfg": 2, "pda": 3, "fst": 3, "ig": 3},
+    DEPTH = {"quick": {"fa": 3, "regex": 3, "cfg": 3, "pda": 3, "fst": 3, "ig": 3},
              "thorough": {"fa": 3, "regex": 4, "cfg": 3, "pda": 4, "fst": 4, "ig": 4}}
 
     def layers(self, tier, seed):
